@@ -190,10 +190,11 @@ Section Inverse.
 
   Lemma shirokov_no_zde x : shirokov O dv isz F A x <> Err EZeroDiv.
   Proof.
-    unfold shirokov. intros H. apply bind_Err in H. destruct H as [H|(chains & _ & H)].
+    unfold shirokov, shirokov_run. intros H.
+    apply bind_Err in H. destruct H as [H|([[[i xi] xs] cs] & _ & H)]; [|discriminate].
+    apply bind_Err in H. destruct H as [H|(chains & _ & H)].
     - apply minimal_chains_loop_err in H. discriminate.
-    - apply bind_Err in H. destruct H as [H|([[[i xi] xs] cs] & _ & H)]; [|discriminate].
-      apply shirokov_loop_err in H. destruct H; discriminate.
+    - apply shirokov_loop_err in H. destruct H; discriminate.
   Qed.
 
   Theorem inv_numden_no_zde y : inv_numden O dv isz F A y <> Err EZeroDiv.
@@ -260,9 +261,9 @@ Section Inverse.
 
   Lemma shirokov_wf x adj den : shirokov O dv isz F A x = Ok (adj, den) -> wf adj.
   Proof.
-    unfold shirokov. intros H. apply bind_Ok in H. destruct H as (chains & _ & H).
-    apply bind_Ok in H. destruct H as ([[[i xi] xs] cs] & _ & H). cbv beta iota zeta in H.
-    inversion H. destruct (Nat.eqb i 1); [apply wf_blade_e | apply wf_isub].
+    unfold shirokov. intros H. apply bind_Ok in H. destruct H as ([[[i xi] xs] cs] & _ & H).
+    cbv beta iota zeta in H. inversion H. unfold shirokov_adj.
+    destruct (Nat.eqb i 1); [apply wf_blade_e | apply wf_isub].
   Qed.
 
   Theorem inv_numden_wf y num den : inv_numden O dv isz F A y = Ok (num, den) -> wf num.
